@@ -148,6 +148,41 @@ class Sym:
       return ('global', e.id)
     if isinstance(e, ast.Constant):
       return ('const', e.value)
+    if isinstance(e, ast.NamedExpr) and isinstance(e.target, ast.Name):
+      v = self._val(e.value, env)
+      env[e.target.id] = v            # the binding is visible after the test
+      return v
+    if isinstance(e, ast.Tuple) and not any(isinstance(x, ast.Starred) for x in e.elts):
+      return ('tuple', [self._val(x, env) for x in e.elts])
+    if isinstance(e, ast.Dict) and all(isinstance(k, ast.Constant) and isinstance(
+        k.value, str) for k in e.keys):
+      return ('dict', [(k.value, self._val(v, env)) for k, v in zip(e.keys, e.values)])
+    if isinstance(e, ast.DictComp) and len(e.generators) == 1 and isinstance(
+        e.generators[0].iter, (ast.Tuple, ast.List)) and isinstance(
+            e.generators[0].target, ast.Tuple) and all(
+                isinstance(t, ast.Name) for t in e.generators[0].target.elts):
+      # {k: v for k, v in (('key', key), ...) if cond}: decided row by row
+      g = e.generators[0]
+      names = [t.id for t in g.target.elts]
+      items = []
+      for row in g.iter.elts:
+        if not isinstance(row, ast.Tuple) or len(row.elts) != len(names):
+          return ('expr', core.norm(e))
+        e2 = dict(env)
+        for nme, x in zip(names, row.elts):
+          e2[nme] = self._val(x, env)
+        keep = True
+        for c in g.ifs:
+          r = self._cond(c, e2)
+          if r is None:
+            return ('expr', core.norm(e))
+          keep = keep and r
+        if keep:
+          k = self._val(e.key, e2)
+          if k[0] != 'const' or not isinstance(k[1], str):
+            return ('expr', core.norm(e))
+          items.append((k[1], self._val(e.value, e2)))
+      return ('dict', items)
     if isinstance(e, ast.Call):
       d = core.dotted(e.func)
       if d == 'registry_lookup':
@@ -262,14 +297,18 @@ class Sym:
         outs += self._block(s.orelse, ef, depth)
       return outs
     if isinstance(s, ast.For):
-      # zero iterations and one iteration (registries miss on ordinary values)
-      outs = [('fall', env)]
+      # zero iterations and one iteration (registries miss on ordinary values);
+      # the else clause runs when the loop was not left by break
+      outs = list(self._block(s.orelse, dict(env), depth)) if s.orelse else [('fall', env)]
       e2 = dict(env)
       if isinstance(s.target, ast.Name):
         e2[s.target.id] = ('sym', '<elem>')
       for o in self._block(s.body, e2, depth):
         if o[0] == 'fall':
-          outs.append(('fall', o[1]))
+          if s.orelse:
+            outs.extend(self._block(s.orelse, dict(o[1]), depth))
+          else:
+            outs.append(('fall', o[1]))
         elif o[0] == 'break':
           outs.append(('fall', o[1]))
         else:
@@ -310,12 +349,20 @@ class Sym:
     args = []
     for a in v.args:
       if isinstance(a, ast.Starred):
-        args.append(('star', self._val(a.value, env)))
+        sv = self._val(a.value, env)
+        if sv[0] == 'tuple':
+          args.extend(sv[1])          # *(a, b) is a, b
+        else:
+          args.append(('star', sv))
       else:
         args.append(self._val(a, env))
     kws = []
     for k in v.keywords:
-      kws.append((k.arg, self._val(k.value, env)))
+      kv = self._val(k.value, env)
+      if k.arg is None and kv[0] == 'dict':
+        kws.extend(kv[1])             # **{'key': k} is key=k
+      else:
+        kws.append((k.arg, kv))
     if callee[0] == 'func' and depth < 4:
       fn = self.mod.functions[callee[1]].node
       e2 = {}
@@ -530,12 +577,14 @@ def check(model, rep, tier):
               {'answers': vals}, line=blt[0].lineno,
               witness='%s() inside a functionalised loop body' % nm)
   ff = model.func(PYB, '_find_originating_frame')
+  stop_flag, stop_value = None, None
   loops = [n for n in ast.walk(ff.node) if isinstance(n, ast.While)]
   ok = len(loops) == 1
   facts = {}
   if ok:
     lp = loops[0]
-    scope_p, inner_p = ff.params(skip_self=False)[:2]
+    all_p = ff.params(skip_self=False) + [a.arg for a in ff.node.args.kwonlyargs]
+    scope_p, flag_ps = all_p[0], all_p[1:]
     facts['loop_test'] = core.norm(lp.test)
     b = pat.match('_F_ is not None', lp.test) or pat.match('_F_', lp.test)
     ok = b is not None and '_F_' in b
@@ -559,7 +608,14 @@ def check(model, rep, tier):
           if isinstance(i, ast.If) and i is not mt and any(
               y is x for st in i.body for y in ast.walk(st)):
             gd = core.norm(i.test)
-        if gd != inner_p or not any(y is x for st in mt.body for y in ast.walk(st)):
+        # the early exit is controlled by a flag parameter, in either polarity
+        if gd in flag_ps:
+          stop_flag, stop_value = gd, True
+        elif gd is not None and gd.startswith('not ') and gd[4:] in flag_ps:
+          stop_flag, stop_value = gd[4:], False
+        else:
+          ok = False
+        if not any(y is x for st in mt.body for y in ast.walk(st)):
           ok = False
       ok = ok and not mt.orelse
       res = [pat.match('_R_ = _F_', st, b) for st in mt.body]
@@ -583,15 +639,15 @@ def check(model, rep, tier):
     calls = [c for c in ast.walk(fi.node) if isinstance(c, ast.Call) and
              core.dotted(c.func) == '_find_originating_frame']
     got = None
-    if len(calls) == 1:
-      got = 'True'
-      if len(calls[0].args) > 1:
-        got = core.norm(calls[0].args[1])
-      for k in calls[0].keywords:
-        if k.arg == 'innermost':
-          got = core.norm(k.value)
-      if core.norm(calls[0].args[0]) != 'caller_fn_scope':
-        got = None
+    if len(calls) == 1 and stop_flag is not None:
+      # does this call stop at the first (innermost) match?  The flag value is
+      # read through the binding of the call, whatever the flag is called
+      from sa import inline
+      bound = inline._bind(ff.node, calls[0], False)
+      if bound is not None and isinstance(bound.get(stop_flag), ast.Constant) and \
+          isinstance(bound[stop_flag].value, bool) and core.norm(
+              bound.get(ff.params(skip_self=False)[0])) == 'caller_fn_scope':
+        got = str(bound[stop_flag].value == stop_value)
     rep.check(got == want, 'BI-FRAME', '%s:innermost=%s' % (fi.site, want),
               '%s must search with innermost=%s' % (fn_name, want),
               {'found': got}, line=fi.node.lineno)
@@ -748,7 +804,10 @@ def check(model, rep, tier):
   ok = len(rets) == 1
   facts = {}
   if ok:
-    frame = "_find_originating_frame(%s, innermost=False)" % fp[2]
+    fcalls = [c for c in ast.walk(sf.node) if isinstance(c, ast.Call) and
+              core.dotted(c.func) == '_find_originating_frame']
+    frame = core.norm(fcalls[0]) if fcalls else '?'
+    # (that this call searches for the outermost frame is decided above)
     a0 = tpl.xnorm(sf, rets[0].value.args[0], rets[0])
     a1 = tpl.xnorm(sf, rets[0].value.args[1], rets[0])
     facts = {'type_arg': a0, 'self_arg': a1}
